@@ -16,7 +16,7 @@ from .avm.engine import Engine, HarnessError, Outcome
 from .avm.sym import Bounds, SymAVM
 from .avm.values import Bs, U, u64_to_bytes
 from .common import to_json
-from .teal.parse import TealSyntaxError, check_program, parse
+from .teal.parse import TealSyntaxError, blocking_complaints, check_program, parse
 from .arc4 import model as M, types as T
 from .arc4.abijob import tt
 from .router import selector, PYTEAL_ERRORS
@@ -299,7 +299,7 @@ def inner_job(job: Dict[str, Any]) -> Dict[str, Any]:
     except TealSyntaxError as e:
         out["complaints"] = ["unparsable: %s" % e]
         return out
-    out["complaints"] = check_program(prog, "A")
+    out["complaints"] = blocking_complaints(prog, "A")
     if out["complaints"]:
         out["teal"] = teal
         return out
